@@ -1298,6 +1298,9 @@ def _structure_goals(mk, tag, c, L, out, kind, layered_input=False):
 
 
 _DIRECT = ("direct", "dm", "zipup")
+# the reduced density matrices diagonalised by the 'dm' method are positive semi-definite and, where the bond is inflated,
+# rank deficient: the eigh stub hands out non-negative (not strictly positive) eigenvalues
+_DM_SPECTRUM = "nonneg"
 # inputs per method.  Sums of product states have block-diagonal site tensors: the structural zeros turn the QR contracts
 # into relations the certificate search cannot orient (the generic bond-2 state 'mps' subsumes them: the identity is proved
 # for every value of the entries); the eigh-based 'dm' route certifies them directly.
@@ -1313,18 +1316,23 @@ for m_, inputs_ in _EXACT_INPUTS.items():
             _EXACT.append({"method": m_, "inp": inp_, "L": 3, "reverse": rev_, "_tiers": _Q if quick else _T})
 _EXACT += [{"method": m_, "inp": "mps", "L": 4, "reverse": False, "_tiers": _T} for m_ in ("direct", "zipup")]
 _EXACT += [{"method": m_, "inp": "mps", "L": 2, "reverse": True, "_tiers": _T} for m_ in _DIRECT]
+for p_ in _EXACT:
+    p_["kind"] = "real"
+_EXACT += [{"method": m_, "inp": i_, "L": 3, "reverse": r_, "kind": "cplx", "_tiers": _T}
+           for m_ in ("direct", "zipup") for (i_, r_) in (("mps", False), ("mps", True), ("op1.vec2", False), ("mpo", False))]
+_EXACT += [{"method": "dm", "inp": "mps", "L": 2, "reverse": False, "kind": "cplx", "_tiers": _T}]
 
 
 @obligation(PROP, params=_EXACT, rounds=2, timeout_s=600, max_rows=60000, wall_s=500)
-def compress_exact(mk, method, inp, L, reverse):
+def compress_exact(mk, method, inp, L, reverse, kind):
     """tensor_network_1d_compress(cutoff=0, max_bond=None): nothing needs truncating -> value reproduced, one tensor per
     site, promised canonical form (right; left with sweep_reverse)"""
     mk.encodes(cp.tensor_network_1d_compress, cp._TN1D_COMPRESS_METHODS[method], cp.enforce_1d_like, cp._form_final_tn_from_tensor_sequence,
                cp.possibly_permute_, tc.TensorNetwork.compress_between, tc.TensorNetwork.canonize_between, tc.tensor_compress_bond,
                tc.tensor_canonize_bond)
-    tn, want, out, kind = _compress_input(mk, inp, L)
+    tn, want, out, kind = _compress_input(mk, inp, L, kind)
     if method in ("dm",):
-        stubs.OPTIONS["eigh_spectrum"] = "pos"
+        stubs.OPTIONS["eigh_spectrum"] = _DM_SPECTRUM
     try:
         with warnings.catch_warnings():
             warnings.simplefilter("ignore")
@@ -1357,7 +1365,7 @@ def _sequential_truncation_ref(psi, reverse):
     """plain numpy reference for a bond-1 sweep: truncate one cut after the other (right to left; left to right if
     `reverse`) to the leading singular triplet; returns (truncated state, sum of the discarded squared singular values)"""
     L = psi.ndim
-    cur = np.asarray(psi, dtype=float)
+    cur = np.asarray(psi)
     disc = 0.0
     cuts = range(L - 1, 0, -1) if not reverse else range(1, L)
     for cut in cuts:
@@ -1372,29 +1380,43 @@ _CAP = []
 for m_ in _DIRECT:
     for L_ in (2, 3):
         for rev_ in (False, True):
-            _CAP.append({"method": m_, "L": L_, "reverse": rev_, "_tiers": _Q if (L_ == 2 or (not rev_ and m_ == "direct")) else _T})
+            _CAP.append({"method": m_, "inp": "mps", "L": L_, "reverse": rev_, "kind": "real",
+                         "_tiers": _Q if (L_ == 2 or (not rev_ and m_ == "direct")) else _T})
+_CAP += [{"method": m_, "inp": "op1.vec2", "L": 3, "reverse": False, "kind": "real", "_tiers": _T} for m_ in _DIRECT]
+_CAP += [{"method": m_, "inp": "mps", "L": 2, "reverse": False, "kind": "cplx", "_tiers": _T} for m_ in ("direct", "zipup")]
+_CAP += [{"method": m_, "inp": "mps", "L": 3, "reverse": r_, "kind": "real", "_tiers": _T} for m_ in ("zipup-first", "sdc") for r_ in (False, True)]
+_CAP += [{"method": "direct", "inp": "mps", "L": 4, "reverse": False, "kind": "real", "_tiers": _T}]
 
 
 @obligation(PROP, params=_CAP, rounds=2, rounds2=3, timeout_s=600, max_rows=60000, wall_s=500)
-def compress_capped(mk, method, L, reverse):
+def compress_capped(mk, method, inp, L, reverse, kind):
     """tensor_network_1d_compress(max_bond=1, cutoff=0) of a bond-2 state: cap respected, canonical form, and
     ||psi - psi'||^2 == sum of the squared singular values discarded along the sweep (canonical methods)"""
     mk.encodes(cp.tensor_network_1d_compress, cp._TN1D_COMPRESS_METHODS[method], tc.tensor_compress_bond, tc.tensor_split)
-    a, Ar = sym_mps(mk, "A", L, 2, None, False, "real")
-    va = raw_vec(Ar)
+    tn, va, out, _ = _compress_input(mk, inp, L, kind)
     if method == "dm":
-        stubs.OPTIONS["eigh_spectrum"] = "pos"
+        stubs.OPTIONS["eigh_spectrum"] = _DM_SPECTRUM
     try:
-        c = cp.tensor_network_1d_compress(a, max_bond=1, cutoff=0.0, method=method, sweep_reverse=reverse)
+        with warnings.catch_warnings():
+            warnings.simplefilter("ignore")
+            c = cp.tensor_network_1d_compress(tn, max_bond=1, cutoff=0.0, method=method, sweep_reverse=reverse)
     finally:
         stubs.OPTIONS["eigh_spectrum"] = "real"
     tag = f"{method}{'/reverse' if reverse else ''} max_bond=1"
-    _structure_goals(mk, tag, c, L, tuple(f"k{i}" for i in range(L)), "vec")
+    _structure_goals(mk, tag, c, L, out, "vec")
     mk.same(f"{tag}: bond cap respected", c.max_bond() <= 1, True)
     canonical_goals(mk, tag, c, "left" if reverse else "right", L)
     vc = vdense(c)
     diff = _flat(va - vc)
-    err2 = _sum(x * x for x in diff)
+    err2 = inner(diff, diff)
+    # the error identity holds for the methods that truncate in an exactly canonical gauge: direct and dm on any input,
+    # zipup on a single-layer state (its pseudo-canonical gauge is then the canonical one)
+    canonical_method = method in ("direct", "dm") or (method == "zipup" and inp == "mps")
+    if not canonical_method:
+        return
+    if mk.sym and inp != "mps":
+        mk.note("two-layer input: error identity checked in the numeric cross-run only (certificate too large)")
+        return
     if mk.sym:
         disc, fams = _discarded(mk, method)
         mk.same(f"{tag}: one truncating decomposition per bond", sorted(fams.values()), [2] * (L - 1))
@@ -1403,9 +1425,10 @@ def compress_capped(mk, method, L, reverse):
         refstate, disc = _sequential_truncation_ref(va, reverse)
         mk.eq(f"{tag}: ||psi - psi'||^2 == sum of discarded squared singular values", err2, disc, tol=1e-9)
         mk.eq(f"{tag}: result == sequential best rank-1 truncation (plain numpy)", vc, refstate, tol=1e-8)
-        s_orig = [np.linalg.svd(np.asarray(va, dtype=float).reshape(2 ** k, -1), compute_uv=False) for k in range(1, L)]
+        s_orig = [np.linalg.svd(np.asarray(va).reshape(2 ** k, -1), compute_uv=False) for k in range(1, L)]
         bound = sum(float(np.sum(s[1:] ** 2)) for s in s_orig)
-        mk.same(f"{tag}: error within the bound from the singular values of the original state", bool(float(err2) <= bound * (1 + 1e-9) + 1e-14), True)
+        mk.same(f"{tag}: error within the bound from the singular values of the original state",
+                bool(float(abs(err2)) <= bound * (1 + 1e-9) + 1e-14), True)
 
 
 # ---------------------------------------------------------------------- compression methods of the MPS / MPO classes
@@ -1522,7 +1545,7 @@ def gate_with_mpo_entry_points(mk, entry):
     MO, vx = raw_op(Or), _flat(raw_vec(Xr))
     out = tuple(f"k{i}" for i in range(L))
     if "dm" in entry:
-        stubs.OPTIONS["eigh_spectrum"] = "pos"
+        stubs.OPTIONS["eigh_spectrum"] = _DM_SPECTRUM
     try:
         with warnings.catch_warnings():
             warnings.simplefilter("ignore")
@@ -1574,3 +1597,69 @@ def compress_iterative_numeric(mk, method):
     mk.eq(f"{method}: value reproduced when the cap is not binding", _flat(vdense(c)), want, tol=1e-4)
     mk.same(f"{method}: max_bond=1 respected", c1_.max_bond() <= 1, True)
     _structure_goals(mk, f"{method} max_bond=1", c1_, L, out, "vec")
+
+
+# ---------------------------------------------------------------------- documented options of the 1D compression drivers
+
+_OPTS = []
+for m_ in _DIRECT:
+    for o_ in ("canonize=False", "normalize", "inplace", "permute=plr", "max_bond=2", "max_bond=2,cutoff_mode=rel", "site_tags"):
+        if m_ == "dm" and o_ == "canonize=False":
+            continue
+        _OPTS.append({"method": m_, "option": o_, "_tiers": _Q if (m_ == "direct" and o_ in ("normalize", "inplace", "max_bond=2")) else _T})
+
+
+@obligation(PROP, params=_OPTS, rounds=2, rounds2=3, timeout_s=600, max_rows=60000, wall_s=500)
+def compress_options(mk, method, option):
+    """documented options of tensor_network_1d_compress on a bond-2 state, nothing truncated"""
+    mk.encodes(cp.tensor_network_1d_compress, cp._TN1D_COMPRESS_METHODS[method], cp._form_final_tn_from_tensor_sequence, cp.possibly_permute_)
+    L = 3
+    a, Ar = sym_mps(mk, "A", L, 2, None, False, "real")
+    va = raw_vec(Ar)
+    out = tuple(f"k{i}" for i in range(L))
+    kw = {"canonize=False": {"canonize": False}, "normalize": {"normalize": True}, "inplace": {"inplace": True},
+          "permute=plr": {"permute_arrays": "plr"}, "max_bond=2": {"max_bond": 2}, "max_bond=2,cutoff_mode=rel": {"max_bond": 2, "cutoff_mode": "rel"},
+          "site_tags": {"site_tags": tuple(f"I{i}" for i in reversed(range(L)))}}[option]
+    tn = a.copy()
+    if method == "dm":
+        stubs.OPTIONS["eigh_spectrum"] = _DM_SPECTRUM
+    try:
+        with warnings.catch_warnings():
+            warnings.simplefilter("ignore")
+            c = cp.tensor_network_1d_compress(tn, cutoff=0.0, method=method, **kw)
+    finally:
+        stubs.OPTIONS["eigh_spectrum"] = "real"
+    tag = f"{method}({option})"
+    vc = vdense(c)
+    if option == "normalize":
+        n2 = inner(va, va)
+        mk.eq(f"{tag}: result has unit norm", inner(vc, vc), 1)
+        fa, fc = _flat(va), _flat(vc)
+        pairs = [(i, j) for i in range(len(fa)) for j in range(i + 1, len(fa))]
+        mk.eq(f"{tag}: result is proportional to the input", [fc[i] * fa[j] for i, j in pairs], [fc[j] * fa[i] for i, j in pairs])
+        if not mk.sym:
+            mk.eq(f"{tag}: result == input / ||input||", vc * float(n2) ** 0.5, va)
+        mk.same(f"{tag}: exponent reset", float(c.exponent), 0.0)
+    else:
+        mk.eq(f"{tag}: dense value reproduced", vc, va)
+    if option == "inplace":
+        mk.same(f"{tag}: the input object is returned", c is tn, True)
+    else:
+        mk.eq(f"{tag}: input untouched", vdense(tn), va)
+    if option == "permute=plr":
+        want = []
+        for i in range(L):
+            ix = [f"k{i}"]
+            if i > 0:
+                ix.append(c.bond(i - 1, i))
+            if i < L - 1:
+                ix.append(c.bond(i, i + 1))
+            want.append(tuple(ix))
+        mk.same(f"{tag}: arrays stored in (physical, left, right) order", [tuple(c[i].inds) for i in range(L)], want)
+        mk.same(f"{tag}: type / labels", (type(c) is qtn.MatrixProductState, set(c.outer_inds())), (True, set(out)))
+    else:
+        _structure_goals(mk, tag, c, L, out, "vec")
+    if option.startswith("max_bond"):
+        mk.same(f"{tag}: cap respected", c.max_bond() <= 2, True)
+    if option != "canonize=False":
+        canonical_goals(mk, tag, c, "left" if option == "site_tags" else "right", L)
